@@ -75,6 +75,131 @@ pub fn judge(m: &Small, llrs: &[f64], limit: usize, res: &Dec) -> Result<(), Str
     }
 }
 
+/// The same relation for matrices beyond 64 columns, given as row lists.
+fn judge_rows(rows: &[Vec<usize>], n: usize, llrs: &[f64], limit: usize, res: &Dec) -> Result<(), String> {
+    let ok = |w: &dyn Fn(usize) -> bool| rows.iter().all(|r| r.iter().filter(|&&j| w(j)).count() % 2 == 0);
+    let s_ok = ok(&|j| llrs[j] <= 0.0);
+    let (o, success) = match res {
+        Ok(o) => (o, true),
+        Err(o) => (o, false),
+    };
+    if o.codeword.len() != n {
+        return Err(format!("returned word has length {}", o.codeword.len()));
+    }
+    if o.codeword.iter().any(|&b| b > 1) {
+        return Err("returned word has a non-binary entry".into());
+    }
+    let w_ok = ok(&|j| o.codeword[j] == 1);
+    if success {
+        if !w_ok {
+            return Err("success reported with a word that violates a parity check".into());
+        }
+        if o.iterations > limit {
+            return Err(format!("success after {} iterations with limit {}", o.iterations, limit));
+        }
+        if (o.iterations == 0) != s_ok {
+            return Err(format!("iteration count {} but the sign pattern {} the checks", o.iterations, if s_ok { "satisfies" } else { "violates" }));
+        }
+        if s_ok && (0..n).any(|j| (o.codeword[j] == 1) != (llrs[j] <= 0.0)) {
+            return Err("sign pattern is a codeword but the returned word differs from it".into());
+        }
+    } else {
+        if s_ok {
+            return Err("failure reported although the sign pattern satisfies every check".into());
+        }
+        if o.iterations != limit {
+            return Err(format!("failure with iteration count {} != limit {}", o.iterations, limit));
+        }
+        if limit >= 1 && w_ok {
+            return Err("failure reported with a word that satisfies every check".into());
+        }
+    }
+    Ok(())
+}
+
+/// Matrices with a dimension just past 16, 64, 128, 256, 1024 (row lists; n up to a few thousand).
+pub fn big_matrices(thorough: bool) -> Vec<(String, usize, Vec<Vec<usize>>)> {
+    let mut v: Vec<(String, usize, Vec<Vec<usize>>)> = Vec::new();
+    for d in if thorough { vec![17usize, 33, 64, 65, 129, 257, 1025] } else { vec![17usize, 65, 129, 257] } {
+        v.push((format!("one-check:1x{}", d), d, vec![(0..d).collect()]));
+        v.push((format!("two-checks:2x{}", d + 2), d + 2, vec![(0..d).collect(), (d / 2..d + 2).collect()]));
+        // a variable of degree d: d checks {0, 1+i%3}
+        v.push((format!("one-variable:{}x4", d), 4, (0..d).map(|i| vec![0, 1 + i % 3]).collect()));
+    }
+    for r in if thorough { vec![1024usize, 1025, 2049, 4097] } else { vec![1025usize] } {
+        v.push((format!("block-diagonal:{}x{}", r, 3 * r), 3 * r, (0..r).map(|i| vec![3 * i, 3 * i + 1, 3 * i + 2]).collect()));
+    }
+    v
+}
+
+fn big_vectors(n: usize) -> Vec<Vec<f64>> {
+    let mut out = vec![vec![2.0; n], vec![-2.0; n]];
+    for &p in &[0usize, n / 2, n - 1] {
+        for &x in &[-2.0, -0.03, 0.03, 0.0, -15.875] {
+            let mut v = vec![2.0; n];
+            v[p] = x;
+            out.push(v);
+        }
+    }
+    let mut v = vec![2.0; n];
+    v[0] = -2.0;
+    v[n - 1] = -1.0;
+    out.push(v);
+    out.push((0..n).map(|j| if j % 2 == 0 { 1.5 } else { -1.5 }).collect());
+    out.push((0..n).map(|j| if j % 3 == 0 { -0.5 } else { 3.0 }).collect());
+    // the largest magnitude the property allows
+    out.push((0..n).map(|j| if j == 0 { -1e30 } else { 1e30 }).collect());
+    out.push((0..n).map(|j| if j % 2 == 0 { -1e30 } else { 1e30 }).collect());
+    out.sort_by(|a, b| a.partial_cmp(b).unwrap());
+    out.dedup();
+    out
+}
+
+fn run_big_job(name: &str, mname: &str, n: usize, rows: &[Vec<usize>], limits: &[usize], acc: &mut Acc) {
+    let build = || {
+        let mut h = ldpc_toolbox::sparse::SparseMatrix::new(rows.len(), n);
+        // scrambled storage order: rows bottom-up, entries of odd rows descending
+        for (i, r) in rows.iter().enumerate().rev() {
+            if i % 2 == 1 {
+                for &j in r.iter().rev() {
+                    h.insert(i, j);
+                }
+            } else {
+                for &j in r {
+                    h.insert(i, j);
+                }
+            }
+        }
+        h
+    };
+    let mut decoder = match guard(|| dec::factory_build(name, build())) {
+        Ok(Ok(d)) => d,
+        other => {
+            acc.violate(format!("decode:{}:{}:build", name, mname), format!("cannot build decoder: {:?}", other.map(|r| r.map(|_| ()))), json!({"kind": "big", "name": name, "matrix": mname}));
+            return;
+        }
+    };
+    for (vi, llrs) in big_vectors(n).iter().enumerate() {
+        for &limit in limits {
+            acc.evals += 1;
+            let res = guard(|| decoder.decode(llrs, limit));
+            let verdict = match &res {
+                Err(p) => Err(format!("decode panicked: {}", p)),
+                Ok(r) => judge_rows(rows, n, llrs, limit, r),
+            };
+            if limit >= 1 {
+                acc.nontrivial += 1;
+            }
+            if let Err(text) = verdict {
+                acc.violate(format!("decode:{}:{}:v{}:L{}", name, mname, vi, limit), format!("{} [matrix {} vector #{} limit {}]", text, mname, vi, limit), json!({"kind": "big", "name": name, "matrix": mname}));
+                if res.is_err() {
+                    decoder = dec::factory_build(name, build()).unwrap();
+                }
+            }
+        }
+    }
+}
+
 #[derive(Clone)]
 enum Mode {
     /// full power alphabet^n
@@ -233,6 +358,14 @@ fn run_job(job: &Job, acc: &mut Acc) {
 }
 
 fn replay_element(v: &Value, acc: &mut Acc) {
+    if v["kind"] == "big" {
+        for (mname, n, rows) in big_matrices(true) {
+            if Some(mname.as_str()) == v["matrix"].as_str() {
+                run_big_job(v["name"].as_str().unwrap_or(""), &mname, n, &rows, &[0, 1, 5], acc);
+            }
+        }
+        return;
+    }
     let name = v["name"].as_str().unwrap().to_string();
     let n = v["n"].as_u64().unwrap() as usize;
     let rows: Vec<u64> = v["rows"].as_array().unwrap().iter().map(|x| x.as_u64().unwrap()).collect();
@@ -327,6 +460,17 @@ pub fn run(run: &Run) -> i32 {
         extra.insert("matrices".into(), json!(matrices));
         extra.insert("implementations".into(), json!(names.len()));
         acc = par_items(&jobs, |j, a| run_job(j, a));
+        // large degrees / many rows
+        let big = big_matrices(run.thorough());
+        let mut bigjobs: Vec<(String, usize)> = Vec::new();
+        for name in &names {
+            for i in 0..big.len() {
+                bigjobs.push((name.clone(), i));
+            }
+        }
+        let blimits = [0usize, 1, 5];
+        let a2 = par_items(&bigjobs, |(name, i), a| run_big_job(name, &big[*i].0, big[*i].1, &big[*i].2, &blimits, a));
+        acc = acc.merge(a2);
         // per-implementation outcome mix must not be "shortcut only"
         for name in &names {
             let it = acc.counters.get(&format!("{}:ok_after_iterations", name)).cloned().unwrap_or(0);
@@ -340,7 +484,7 @@ pub fn run(run: &Run) -> i32 {
         run,
         acc,
         Coverage {
-            rule: "36 implementation names (factory-built) x every matrix with all row weights >= 2 of the listed shapes (full power of the stated LLR alphabet) and six named matrices ({+a,-a,0}^n and every single/double substitution of a boundary value into each codeword's sign pattern), plus wide2x12 (check degrees 9 and 10; thorough also wide3x20 with degrees 17, 9, 18) with single/double substitutions into 8 evenly spaced codewords x iteration limits {0,1,2,3,10[,50]}. Alphabet: +-1, +-0, +-0.0625 (8-bit round-half boundary), +-0.0624, +-15.875 (=127/8), +-1e30, +-1e-30, +-1e-46 (flushes to 0 in f32), +-5e-324, +-3.7. Half of the (implementation, matrix) pairs receive the matrix through a redundant editing history (bottom-up columns, re-inserted and twice-toggled entries). Duplicate-free product; non-trivial = at least one iteration executed (sign pattern not a codeword and limit >= 1). Per-implementation counters of shortcut / success-after-iterations / failure are in counters.".into(),
+            rule: "36 implementation names (factory-built) x every matrix with all row weights >= 2 of the listed shapes (full power of the stated LLR alphabet) and six named matrices ({+a,-a,0}^n and every single/double substitution of a boundary value into each codeword's sign pattern), plus wide2x12 (check degrees 9 and 10; thorough also wide3x20 with degrees 17, 9, 18) with single/double substitutions into 8 evenly spaced codewords, and matrices with a check or a variable of degree 17, 65, 129, 257 (thorough 1025) or 1025 (4097) rows with ~20 LLR vectors each x iteration limits {0,1,2,3,10[,50]}. Alphabet: +-1, +-0, +-0.0625 (8-bit round-half boundary), +-0.0624, +-15.875 (=127/8), +-1e30, +-1e-30, +-1e-46 (flushes to 0 in f32), +-5e-324, +-3.7. Half of the (implementation, matrix) pairs receive the matrix through a redundant editing history (bottom-up columns, re-inserted and twice-toggled entries). Duplicate-free product; non-trivial = at least one iteration executed (sign pattern not a codeword and limit >= 1). Per-implementation counters of shortcut / success-after-iterations / failure are in counters.".into(),
             exhaustive: true,
             extra,
             graph: None,
